@@ -43,6 +43,8 @@ pub fn verif_members<'a>(s: &'a HashSet<TrueName>) -> (r: Vec<&'a TrueName>)
     ensures r@ == membs(*s), membs(*s).len() == mem(*s).len(), forall|k: int| 0 <= k < mem(*s).len() ==> *(#[trigger] membs(*s)[k]) == mem(*s)[k],
 { unimplemented!() }
 
+// ---- /repo functions with ASSUMED contracts in this unit (bodies pinned; TrueName::is_superset_of is PROVED in unit NULL) --------
+//@@ ASSUME src/check/name/mod.rs | impl Empty for Name | is_empty
 /// the member-level test (unit NULL proves the real TrueName::is_superset_of against the nullable rule tn_sup): Some(b) = Ok(b)
 pub uninterp spec fn tn(sup: TrueName, sub: TrueName, ctx: Context) -> Option<bool>;
 impl TrueName {
